@@ -24,8 +24,8 @@ TRUST = "CPython, numpy, scipy, cvxpy+SCS/Clarabel and picos+cvxopt as determini
 
 CHECKS = {
  "C07": dict(
-   engine="simpool+history",
-   technique="deterministic simulation: seeded discrete-event worker-pool simulator (SimPool) + seeded call histories on one game object with OS-entropy seam; reference models checked after every step; injected faults: worker MemoryError (informational), a call aborted by an asynchronous interrupt at a drawn line of library code and then repeated",
+   engine="simpool+history+interleaved-callers",
+   technique="deterministic simulation: seeded discrete-event worker-pool simulator (SimPool) + seeded call histories on one game object with OS-entropy seam; reference models checked after every step; injected faults: worker MemoryError (informational), a call aborted by an asynchronous interrupt at a drawn line of library code and then repeated; two or three caller threads with their own game objects interleaved at line granularity by the seeded baton-passing scheduler (engine T7), judged against the same calls made alone",
    text="Seeded search over worker-pool schedules (worker count, chunk placement, durations, stalls, completion order, fork-time state snapshots) for the classical value above the multiprocessing threshold, and over call histories x entropy values on one NonlocalGame object for state preservation, order independence and the ordering chain (histories include aborted calls, copies of the object, a byte-identical game of another shape, constructor-built product and BCS games through the pool); each violation is shrunk and replayed bit-exactly from its choice list. Exploration level: a clean batch is evidence, not proof.",
    note=TRUST + "; SimPool's fidelity to CPython 3.12 multiprocessing.Pool (chunking, per-chunk pickling, fork snapshots) is cross-checked against the real pool in the thorough tier, not proved; worker death and spawn start-method are not modelled; NPA levels have no independent oracle beyond the sandwich between achieved values and the LP value",
    design="4 (C07)"),
@@ -36,8 +36,8 @@ CHECKS = {
    note=TRUST + "; only the pool clause is schedule-decided, the remaining clauses are reference-model checks on the objects of the simulated history; bell_inequality_max is not covered",
    design="4 (C08)"),
  "C09": dict(
-   engine="history",
-   technique="deterministic simulation: seeded call histories on one ExtendedNonlocalGame object (OS-entropy seam for the see-saw) and on one QuantumHedging object, with a second same-shape object used in between, interrupted-call faults and in-place parameter sweeps by the caller; eigenvalue-enumeration, NPA/LP and own primal/dual reference models after every step",
+   engine="history+interleaved-callers",
+   technique="deterministic simulation: seeded call histories on one ExtendedNonlocalGame object (OS-entropy seam for the see-saw) and on one QuantumHedging object, with a second same-shape object used in between, interrupted-call faults and in-place parameter sweeps by the caller; two caller threads with their own games / hedging objects interleaved by the seeded scheduler (engine T9); eigenvalue-enumeration, NPA/LP and own primal/dual reference models after every step",
    text="Seeded search over entropy values for the randomised see-saw lower bound and over call orders on one extended-game object (every lower bound and the unentangled value stay below every NPA bound and the non-signaling value; values do not depend on call order), and over call orders of the four value methods of one QuantumHedging object (object unchanged, primal = dual, max >= min, agreement with an own primal/dual pair, two repetitions consistent with the single shot). The cloning clauses are not checked (optimal_clone is a deterministic SDP of its arguments with no object, state or seam).",
    note=TRUST + "; optimal_clone clauses are not covered; the see-saw only runs when referee dimension equals Bob's answer count; hedging closed forms (3/4, cos^2(pi/8)) are covered only through the own primal/dual model on the Molina-Watrous family",
    design="4 (C09)"),
@@ -77,7 +77,7 @@ man = {
    {"name": "thread-scheduler", "path": "simdst/sched.py, simdst/engines/c19_rand.py", "serves_properties": ["C19"], "kind_free_text": "baton-passing real threads, sys.settrace pre-emption, seeded choice source"},
    {"name": "simpool", "path": "simdst/simpool.py, simdst/engines/c07_pool.py, simdst/engines/c08_pool.py", "serves_properties": ["C07", "C08"], "kind_free_text": "discrete-event in-process stand-in for multiprocessing.Pool"},
    {"name": "history", "path": "simdst/engines/*_hist.py", "serves_properties": ["C07", "C08", "C09", "C12"], "kind_free_text": "seeded operation histories on long-lived objects with entropy seam and reference models"},
-   {"name": "interleaved-callers", "path": "simdst/engines/threads_common.py, c08_threads.py, c12_threads.py", "serves_properties": ["C08", "C12"], "kind_free_text": "2..3 real threads with their own objects under the baton-passing scheduler; reference = the same call made alone"},
+   {"name": "interleaved-callers", "path": "simdst/engines/threads_common.py, c07_threads.py, c08_threads.py, c09_threads.py, c12_threads.py", "serves_properties": ["C07", "C08", "C09", "C12"], "kind_free_text": "2..3 real threads with their own objects under the baton-passing scheduler; reference = the same call made alone"},
    {"name": "global-rng", "path": "simdst/engines/c14_sk.py", "serves_properties": ["C14"], "kind_free_text": "seeded control of numpy's legacy global RNG with adversary draws"},
  ],
  "checks": [],
